@@ -383,7 +383,7 @@ class FilterPaths(FnSpec):
         exc = z3.If(self.exc.some, self.exc.val.t, z3.K(W.PatS, z3.BoolVal(False)))
         return inc, exc
 
-    def gs(self, ex, k):
+    def gs(self, ex, k, el=None):
         self.k = k
 
     def inv(self, ex, k):
